@@ -479,7 +479,7 @@ def _agent_case(draw):
 
 EVENT_KIND = st.sampled_from([
     'place', 'place', 'place', 'unplace', 'unplace', 'move', 'delete_app',
-    'place_orphan', 'race'])
+    'place_orphan', 'race', 'create_app', 'create_app'])
 EVENT_COUNT = st.sampled_from([2, 3, 3, 4, 5, 6])
 DIE5 = st.sampled_from(list(range(5)))
 
@@ -498,6 +498,14 @@ def _history_case(draw):
                     manifest first: app deleted)
       delete_app    the manifest removed, the placement record stays for now
                     (no placement notification)
+      create_app    the manifest of an instance that is placed here without
+                    one is written (the writer of /scheduled lagging behind
+                    the scheduler, a restored / re-created node): "manifest
+                    missing" then "manifest present" under one unchanged
+                    placement record. Alone (no placement notification, the
+                    next placement change is the agent's next look at
+                    ZooKeeper) or, 1 in 3, in one notification with an
+                    arrival or a departure
       move          one instance leaves, another arrives, one notification
       race          two instances arrive; while the agent handles the
                     notification (it has listed the children) the record of
@@ -543,10 +551,16 @@ def _history_case(draw):
         return name
 
     steps = ['run_once']
+    repaired = None
+    kind, muts = None, []
     for _ in range(draw(EVENT_COUNT)):
         kind = draw(EVENT_KIND)
         if kind in ('unplace', 'move', 'delete_app') and not placed:
             kind = 'place'
+        orphans = [name for name in placed if name not in scheduled]
+        if kind == 'create_app' and not orphans:
+            # nothing to repair yet: make the instance a later one repairs
+            kind = 'place_orphan'
         if kind in ('place', 'place_orphan', 'move', 'race') and not free:
             kind = 'unplace'
         muts, race = [], None
@@ -563,6 +577,19 @@ def _history_case(draw):
             name = placed[draw(DIE8) % len(placed)]
             muts.append({'do': 'unschedule', 'name': name})
             scheduled.discard(name)
+        elif kind == 'create_app':
+            name = orphans[draw(DIE8) % len(orphans)]
+            muts.append({'do': 'schedule', 'name': name,
+                         'manifest': _manifest(draw)})
+            scheduled.add(name)
+            with_change = draw(DIE6)
+            if with_change == 0 and free:
+                arrive(muts)
+            elif with_change == 1 and len(placed) > 1:
+                placed.remove(name)
+                leave(muts, False)
+                placed.append(name)
+            repaired = name
         else:   # race
             arrive(muts)
             if free and draw(BOOL):
@@ -574,6 +601,19 @@ def _history_case(draw):
         if draw(DIE5) == 0:
             # the heartbeat of the main loop between two notifications
             steps.append('notify_ready')
+    if kind == 'create_app' and len(muts) == 1:
+        # the history must not end on a change the agent is not told about:
+        # one more placement change (of another instance), so that the agent
+        # looks at ZooKeeper again
+        muts = []
+        placed.remove(repaired)
+        if free and (not placed or draw(BOOL)):
+            arrive(muts)
+            kind = 'place'
+        else:
+            leave(muts, False)
+            kind = 'unplace'
+        steps.append({'op': kind, 'muts': muts, 'race': None})
     return {
         'kind': 'agent',
         'check_existing': True,
@@ -788,6 +828,7 @@ def _run_fault(case, stats):
                 # service exit + restart: first synchronisation of the new
                 # agent on what the aborted one left behind
                 stats.count('recovery_syncs')
+                world.restart_agent()
                 rec = cachefs.Controller(world, None, cuts, flush)
                 rwhere = ('the restart after the synchronisation aborted by '
                           '%s at point %d (%s)' % (errno_name, index, label))
@@ -823,10 +864,13 @@ def _history_step(world, step, ctl, raisable, stats):
     once the failure has happened, like the other steps)."""
     mutations = cachefs.agent_step(world, step, ctl, raisable)
     event = world.last_event
-    what = 'placement event %d (%s: +%s -%s%s)' % (
+    what = 'placement event %d (%s: +%s -%s%s%s)' % (
         event['no'], step.get('op'), event['added'], event['removed'],
         ', record of %r removed while the agent handled the notification'
-        % event['raced'] if event['raced'] else '')
+        % event['raced'] if event['raced'] else '',
+        ', manifest of %s written to ZooKeeper after a synchronisation of '
+        'this agent had listed it without one' % event['late_manifest']
+        if event['late_manifest'] else '')
     world.check_observable('the end of ' + what)
     notified = event['children_changed'] and world.watching
     if stats is not None:
@@ -854,6 +898,25 @@ def _history_step(world, step, ctl, raisable, stats):
             stats.count('history:events_after_incomplete_sync')
         if event['uncachable'] or event['raced']:
             stats.count('history:event_sync_with_uncachable_instance')
+        if event['late_manifest']:
+            # "manifest missing" then "manifest present" under one placement
+            # record, seen by one agent process
+            stats.count('history:events_after_manifest_appeared')
+            if event['fs_points']:
+                # same clause as placed-without-file below, named by the
+                # history that shows it (the agent did synchronise)
+                visible = world.visible()
+                for name in event['late_manifest']:
+                    if name in world.expected and \
+                            world.new.get(name) is not None and \
+                            name not in visible:
+                        raise Violation(
+                            'c12.placement-event.manifest-appeared-after-'
+                            'placement.placed-without-file',
+                            '%s %r is placed, its placement node and manifest '
+                            'exist, but it has no cache file (the agent '
+                            'synchronised, yet did not fetch the manifest it '
+                            'had not found earlier)' % (where, name))
         cachefs.check_after_sync(
             world, cachefs.PrefixedStats(stats, 'history:'),
             prefix='c12.placement-event', where=where, check_existing=False)
@@ -867,6 +930,7 @@ def _history_step(world, step, ctl, raisable, stats):
             check_existing=False)
     if event['uncachable'] or event['raced']:
         world.incomplete_sync = True
+    world.event_synchronised()      # (the delivery was a synchronisation)
     return mutations
 
 
@@ -888,6 +952,9 @@ def _agent_steps(world, case, ctl, raisable, stats=None):
             if stats is not None:
                 stats.count('history:first_sync_with_uncachable_instance')
         mutations += cachefs.agent_step(world, step, ctl, raisable)
+        if step == 'sync' or (step == 'run_once' and
+                              case.get('placement_root') is not False):
+            world.event_synchronised()
         synced = step == 'sync' or (step == 'run_once' and
                                     case.get('placement_root') is not False)
         world.check_observable('the end of step %r' % step)
@@ -1170,9 +1237,45 @@ def fixed_cases():
             _ev('unplace', [{'do': 'unplace', 'name': four}]),
         ],
     }
+    late = {
+        # "manifest missing" then "manifest present" under an unchanged
+        # placement record, seen by one agent process: `two` is placed without
+        # a manifest when the agent starts, `three` arrives without one; the
+        # manifest of `two` is written between two notifications (the agent
+        # learns nothing until the next placement change), that of `three`
+        # together with a departure.
+        'kind': 'agent', 'check_existing': True, 'presence': True,
+        'placement_root': True, 'faults': True, 'errno': 'EIO',
+        'instances': [
+            {'name': one, 'role': 'missing', 'placed': True,
+             'manifest': _man(1), 'pnode': True,
+             'pdata': _pd(None, 1578279999.25), 'file': None},
+            {'name': two, 'role': 'missing', 'placed': True,
+             'manifest': None, 'pnode': True,
+             'pdata': _pd(1, 1578280000.5), 'file': None},
+        ],
+        'dotfiles': [],
+        'steps': [
+            'run_once',
+            _ev('place_orphan', [{'do': 'place', 'name': three,
+                                  'pdata': _pd(None, None)}]),
+            _ev('create_app', [{'do': 'schedule', 'name': two,
+                                'manifest': _man(2)}]),
+            'notify_ready',
+            _ev('place', [{'do': 'schedule', 'name': four,
+                           'manifest': _man(4)},
+                          {'do': 'place', 'name': four,
+                           'pdata': _pd(2, 1578280002.0)}]),
+            _ev('create_app', [{'do': 'schedule', 'name': three,
+                                'manifest': _man(3)},
+                               {'do': 'unplace', 'name': one}]),
+            _ev('unplace', [{'do': 'unplace', 'name': four}]),
+        ],
+    }
     return [('aimed-sync-extra-missing-outdated', mixed),
             ('aimed-agent-run-once-notifications', agent),
             ('aimed-agent-placement-history', history),
+            ('aimed-agent-manifest-after-placement', late),
             ('aimed-sync-only-outdated', only_outdated),
             ('aimed-sync-json-value-domain', wide),
             ('aimed-fault-replace-existing', replace_old),
